@@ -14,7 +14,8 @@ def engines : List (String × (List String → String)) := [
   ("filter", Wpull.Filter.handle),
   ("warc", Wpull.Warc.handle),
   ("request", Wpull.Request.handle),
-  ("warcwrite", Wpull.WarcWrite.handle)
+  ("warcwrite", Wpull.WarcWrite.handle),
+  ("http", Wpull.HttpWire.handle)
 ]
 
 def handle (line : String) : String :=
